@@ -15,7 +15,8 @@
    implementation, the D-level model and the T-level model (hexary_run / c01_T_run). *)
 From Coq Require Import List NArith Bool.
 From PyTrie.Base Require Import Bytes Result Nibbles.
-From PyTrie.Hexary Require Import Raw Tree Tree_aux Tree_map.
+From PyTrie.Base Require Import AMap Rlp.
+From PyTrie.Hexary Require Import Raw Tree Tree_aux Tree_map D D_read Refine_read.
 Import ListNotations.
 
 Theorem C01_map : forall ops q, ops_ok ops -> nibs_ok q = true -> tget (trun ops) q = spec_run ops q.
@@ -37,6 +38,26 @@ Theorem C01_get_after_delete : forall t k q, wf t = true -> nibs_ok k = true -> 
   tget (tdelete t k) q = if nibbles_eqb q k then [] else tget t q.
 Proof. exact tget_tdelete. Qed.
 Print Assumptions C01_get_after_delete.
+
+(* READ LINK (database level -> tree level): on a store that represents a tree, the
+   database-level get never raises and returns what the tree holds — for every byte-string
+   key.  Premises: the representation relation, well-formedness ([wf], [ext_ok]: implied by the
+   canonical invariant), the RLP round trip of the tree's own nodes ([decodable]) and no node
+   hashing to the blank-node hash ([no_blank_collision], derivable from collision-freeness of the
+   finitely many node bodies: Refine_read.no_blank_collision_of_cf).  The premises are satisfiable
+   for every tree (Refine_read.represents_store_of_tree) and are checked by computation on a
+   concrete tree with the real Keccak-256 (Refine_read.ex_get). *)
+Theorem C01_lookup_total_D : forall H BNH, (forall x, length (H x) = 32%nat) -> BNH = H (rlp_encode (RStr [])) ->
+  forall m r t, represents H m r t -> wf t = true -> ext_ok t = true -> decodable H t -> no_blank_collision H BNH t ->
+  forall k, fst (get BNH k (plain m r)) = Ok (tget t (bytes_to_nibbles k)).
+Proof. exact Refine_read.C01_lookup_total_D. Qed.
+Print Assumptions C01_lookup_total_D.
+
+Theorem C01_exists_D : forall H BNH, (forall x, length (H x) = 32%nat) -> BNH = H (rlp_encode (RStr [])) ->
+  forall m r t, represents H m r t -> wf t = true -> ext_ok t = true -> decodable H t -> no_blank_collision H BNH t ->
+  forall k, fst (exists_ BNH k (plain m r)) = Ok (texists t (bytes_to_nibbles k)).
+Proof. exact Refine_read.exists_refines. Qed.
+Print Assumptions C01_exists_D.
 
 (* non-vacuity: keys "", 12, 1234, 123456, 123457, 13 (as nibbles), lookups of prefixes *)
 Example C01_example :
